@@ -7,7 +7,7 @@ RULE = ("histories grown by the real planner (plan_next_migration + revision fil
 
 
 def run(tier, seed):
-    return m1run.m1_check("C01", tier, seed, subchecks=[1, 3, 4, 7], oracle_key="c01", known_ids=[], rule=RULE,
+    return m1run.m1_check("C01", tier, seed, subchecks=[1, 3, 4, 7, 8, 10], oracle_key="c01", known_ids=[], rule=RULE,
                           assumptions=["tie: K-norm, K-apply(replay), K-diff(plan_next), K-fill evaluated inside Coq on every case",
                                        "histories are grown in memory by the real planner; the CLI path (revision writes, loader reads) is C12/C13",
                                        "C01_full_statement is refuted (C01_refuted); outside the classifier known_shrunk_constraint the claim rests on the oracle run, not yet on a theorem"])
